@@ -354,6 +354,17 @@ impl<'a> Oracle<'a> {
                 let _ = msg;
             }
             Outcome::Panic(msg) => {
+                // the known-finding key only covers std's total-order panic, nothing else
+                let kf = if msg.contains("does not correctly implement a total order") { kf } else { None };
+                if let Some(k) = kf {
+                    // keep a few replays per known key; count the rest (the failure list is capped
+                    // and must stay free for anything that is not known)
+                    let n = self.kinds_hit.entry(format!("known:{k}")).or_default();
+                    *n += 1;
+                    if *n > 5 {
+                        return;
+                    }
+                }
                 let what = if msg.contains("tera_verif:") {
                     format!("stack not empty after a successful render: {msg}")
                 } else {
@@ -442,11 +453,11 @@ fn main() {
     ];
     let mut sources: Vec<(String, String)> = hand.iter().enumerate().map(|(i, s)| (format!("hand#{i}"), s.to_string())).collect();
     sources.extend(corpus::corpus_templates());
-    let n_gen = if thorough { 5000 } else { 500 };
+    let n_gen = if thorough { 3000 } else { 400 };
     for k in 0..n_gen {
         sources.push((format!("gen#{k}"), gen_tpl::template(&mut rng, 1 + (k % 3) as u32)));
     }
-    let n_sets = if thorough { 1500 } else { 150 };
+    let n_sets = if thorough { 800 } else { 90 };
     let mut sets: Vec<(String, Vec<(String, String)>)> = corpus::corpus_sets();
     for k in 0..n_sets {
         sets.push((format!("set#{k}"), gen_set(&mut rng, k)));
@@ -607,8 +618,46 @@ fn main() {
         }
     }
 
+    // ---- D2 watch: `sort` / `unique` / `group_by` over arrays of containers whose elements are
+    // pairwise incomparable (Ord for Value answers Equal for them): std's sort may detect the
+    // inconsistent order and panic from 21 elements on, depending on the arrangement
+    if mat_ok.is_ok() {
+        let atoms: Vec<Value> = vec![
+            Value::from(vec![Value::from(1u64), Value::from("a")]),
+            Value::from(vec![Value::from(1u64), Value::from(true)]),
+            Value::from(vec![Value::from(1u64), Value::from("b")]),
+            Value::from(vec![Value::from(1u64), Value::from(2.5f64)]),
+            Value::from(vec![Value::from(0u64), Value::from("z")]),
+            Value::from(vec![Value::from(2u64), Value::none()]),
+            m(vec![("a", Value::from(1u64))]),
+            m(vec![("a", Value::from(2u64))]),
+            Value::from(vec![Value::from(1u64), Value::from("c")]),
+        ];
+        let trials = if thorough { 400 } else { 40 };
+        for t in 0..trials {
+            let n = 21 + rng.below(40);
+            let arr = Value::from((0..n).map(|_| atoms[rng.below(atoms.len())].clone()).collect::<Vec<_>>());
+            let none = Value::undefined();
+            for name in ["f:sort", "f:unique", "f:group_by:attribute", "f:sort:attribute"] {
+                let (va, vb) = if name.ends_with(":attribute") {
+                    (Value::from(arr.as_array().unwrap().iter().map(|x| m(vec![("k", x.clone())])).collect::<Vec<_>>()), Value::from("k"))
+                } else {
+                    (arr.clone(), none.clone())
+                };
+                let ctx = ctx_of(&[("a", &va), ("b", &vb)]);
+                let r = guarded(|| mat.render(name, &ctx));
+                cells += 1;
+                o.check(&r, Some("sort:inconsistent-total-order"), || json!({"template": mat_tpls.iter().find(|(n, _)| n == name).map(|(_, s)| s.clone()).unwrap_or_default(), "a": json_value(&va), "b": json_value(&vb), "labels": ["arr:random-containers", t]}));
+            }
+        }
+    }
+
     // =========================================================== unknown names at every site
-    let (unk_cases, unk_rejected, unk_accepted, unk_accepted_labels) = unknown_names(&mut o);
+    let (unk_cases, unk_rejected, unk_accepted, unk_accepted_labels, unk_worlds) = unknown_names(&mut o);
+    for (label, set, term, n_chunks) in unk_worlds {
+        // an accepted set with a planted name must still be a world whose references all resolve
+        wld.push_with_defs(&[reg_def.clone()], term, json!({"set": label, "templates": set, "chunks": n_chunks, "planted_unknown_name": true}), false, None, &["world", "accepted-with-planted-name"]);
+    }
 
     let (renders, ok_text, errs, kinds_hit) = (o.renders, o.ok_text, o.errs, o.kinds_hit.clone());
     drop(o);
@@ -632,7 +681,7 @@ fn main() {
 }
 
 /// (cases, rejected, accepted). Every (kind, site) pair with a name nobody registered.
-fn unknown_names(o: &mut Oracle) -> (usize, usize, usize, Vec<String>) {
+fn unknown_names(o: &mut Oracle) -> (usize, usize, usize, Vec<String>, Vec<(String, Vec<(String, String)>, String, usize)>) {
     // expressions carrying the unknown name, per reference kind
     let exprs: Vec<(&str, &str)> = vec![
         ("filter", "(1 | nope_f)"),
@@ -784,6 +833,7 @@ fn unknown_names(o: &mut Oracle) -> (usize, usize, usize, Vec<String>) {
     let mut rejected = 0usize;
     let mut accepted = 0usize;
     let mut accepted_labels: Vec<String> = Vec::new();
+    let mut worlds = Vec::new();
     let n = cases.len();
     let mut mm = Map::new();
     mm.insert("v".into(), Value::from(1u64));
@@ -801,6 +851,10 @@ fn unknown_names(o: &mut Oracle) -> (usize, usize, usize, Vec<String>) {
             Outcome::Ok(()) => {
                 accepted += 1;
                 accepted_labels.push(label.clone());
+                let names: Vec<String> = set.iter().map(|(n, _)| n.clone()).collect();
+                if let Some((term, nc)) = world_term(&tera, &names) {
+                    worlds.push((label.clone(), set.clone(), term, nc));
+                }
                 // accepted: it must not surface at render time
                 let mut targets: Vec<(Option<String>, Outcome<String>)> = vec![(None, guarded(|| tera.render(&entry, &ctx)))];
                 if let Some(tl) = template_listing(&tera, &entry) {
@@ -848,7 +902,7 @@ fn unknown_names(o: &mut Oracle) -> (usize, usize, usize, Vec<String>) {
             }
         }
     }
-    (n, rejected, accepted, accepted_labels)
+    (n, rejected, accepted, accepted_labels, worlds)
 }
 
 fn replay(path: &std::path::Path) {
